@@ -1,12 +1,13 @@
 """C01 — pagination conserves content."""
-from harness import docs, pm, pm_corr, wide_trace
+from harness import docs, pm, pm_corr, pm_foot_corr, pm_oof_corr, pm_stage2, wide_trace
 from vlib.framework import PropCheck
 
 
 class C01(PropCheck):
     id = 'C01'
     extractors = ()
-    modules = ('WpModel.Props.C01', 'WpModel.Props.C01Trace', 'WpModel.Props.C01Pm2', 'WpModel.Witness.C01Pm2')
+    modules = ('WpModel.Props.C01', 'WpModel.Props.C01Trace', 'WpModel.Props.C01Pm2', 'WpModel.Witness.C01Pm2',
+               'WpModel.Props.C01Oof', 'WpModel.Witness.C01Oof', 'WpModel.Props.C01Foot', 'WpModel.Witness.C01Foot')
     trusted_base = (
         'modelled, not verified: block.py block_level_layout/block_container_layout/_in_flow_layout/_linebox_layout/'
         '_break_line/find_earlier_page_break, page.py make_page/remake_page/make_all_pages as lean/WpModel/Model/'
@@ -24,6 +25,20 @@ class C01(PropCheck):
             'widows/named pages/box-decoration-break), whole pagination compared exactly (page types, resume_at, '
             'next_page, every fragment and line with its geometry); non-trivial = at least 2 pages')
         pm_corr.add_cases(run, sec, run.n(250, 6000))
+        sec_oof = run.section(
+            'pm-oof-documents',
+            'stage 2a of the pagination model (Model/PaginateOof): block/paragraph documents with absolutely '
+            'positioned boxes, full-width floats and clear as block-level children; whole pagination compared exactly, '
+            'including the out-of-flow boxes cut by the page bottom and continued on the next page; non-trivial = at '
+            'least 2 pages')
+        pm_oof_corr.add_cases(run, sec_oof, run.n(120, 4000))
+        sec_foot = run.section(
+            'pm-foot-documents',
+            'stage 2b of the pagination model (Model/PaginateFoot): paragraphs whose lines call footnotes (any number per '
+            'line, every footnote-policy, footnote area with margins/max-height, named pages); whole pagination '
+            'compared exactly including the footnote area of every page and the footnotes left pending; non-trivial '
+            '= at least 2 pages and at least one footnote')
+        pm_foot_corr.add_cases(run, sec_foot, run.n(100, 3000))
         sec2 = run.section(
             'wide-traces',
             'documents of the wide grammar (nested blocks, inline markup, lists, tables with head/foot, multi-column, '
@@ -52,6 +67,8 @@ class C01(PropCheck):
                 sec3.add(line, 'ok', meta=meta, nontrivial=len(meta['pages']) >= 2, tags=[meta['doc_id'].split('-')[0]])
 
     def classify(self, d):
+        if d['section'] == 'pm-foot-documents':
+            return pm_foot_corr.classify(pm_foot_corr.doc_from_json(d['meta']['doc']), d['impl'])
         if d['section'] == 'wide-traces':
             return wide_trace.explain(d['meta'], d['model'])
         if d['section'] == 'families' and d['meta']['doc_id'] in self._family_known.get('conserve', ()):
@@ -59,6 +76,9 @@ class C01(PropCheck):
         return None
 
     def judge(self, d):
+        if d['section'] in pm_stage2.SECTIONS:
+            doc = pm_stage2.corr(d['section']).doc_from_json(d['meta']['doc'])
+            return pm_stage2.conservation(d['section'], doc, d['impl'], d['model'])
         if d['section'] == 'families':
             return f"{d['meta']['doc_id']}: " + (wide_trace.conserve_violation(d['meta'], d['model']) or d['model'])
         if d['section'] == 'wide-traces':
@@ -90,14 +110,18 @@ class C01(PropCheck):
                 'column-span-loses-following-content': lambda: corpus_fails('column_span_loses'),
                 'footnote-in-columns-lost-or-duplicated': lambda: corpus_fails('footnote_in_columns'),
                 'table-in-columns-duplicates-rows': lambda: corpus_fails('table_in_columns_duplicates_rows'),
-                'stale-next-page-scatters-fragments': stale_next_page}
+                'stale-next-page-scatters-fragments': stale_next_page,
+                'absolute-placeholder-survives-abort': pm_oof_corr.finding_replays()['absolute-placeholder-survives-abort'],
+                'footnote-named-page-lost': pm_foot_corr.FINDING_REPLAYS['footnote-named-page-lost']}
 
     def replay(self, data):
         inp = data.get('input', {})
         meta = inp.get('meta') or inp
         if 'doc' in meta:
-            doc = pm_corr.doc_from_json(meta['doc'])
-            return pm_corr.conservation_violation(doc, pm_corr.real_line(doc))
+            module, doc, line = pm_stage2.doc_and_real(inp)
+            if line.startswith('err:'):
+                return None                     # an exception of the implementation is C02's business
+            return pm_stage2.conservation(inp.get('section'), doc, line)
         if 'html' in meta and 'groups' in meta:
             from harness import widegen
             pages = widegen.page_words(docs.render(meta['html']))
